@@ -9,4 +9,4 @@ for p in C01 C02 C03 C04 C05 C06 C07 C08 C09 C10 C11 C12 C13 C14 C15 C16 C17 C18
   if [ $rc -ne 0 ]; then echo "== $p rc=$rc"; echo "$out" | grep -E "^  |ANALYSIS" | cut -c1-260 | head -4; fi
 done
 rm -rf $PWSA_EVIDENCE_DIR
-cd /repo && git checkout -q -- . && git status --short | head -3
+cd /repo && git checkout -q -- . && git clean -fdq -- photon_weave && git status --short | head -3
